@@ -1474,3 +1474,121 @@ Proof.
         -- intros j [=].
         -- apply (move_spec_file _ (o_heap s)); assumption.
 Qed.
+
+(* ---- MkdirAll ------------------------------------------------------------------------------------------------ *)
+(* the keys of the directories below [ps] along [rest], from the shallowest to the deepest *)
+Fixpoint chain_paths (ps rest : list str) : list str :=
+  match rest with
+  | [] => []
+  | c :: r => rpath (ps ++ [c]) :: chain_paths (ps ++ [c]) r
+  end.
+
+Lemma chain_paths_snoc rest : forall ps c,
+  chain_paths ps (rest ++ [c]) = chain_paths ps rest ++ [rpath (ps ++ rest ++ [c])].
+Proof.
+  induction rest as [|x r IH]; intros ps c; cbn [chain_paths app]; [reflexivity|].
+  rewrite IH. rewrite <- !app_assoc. reflexivity.
+Qed.
+
+Lemma rpath_length_ge cs : length cs <= length (rpath cs).
+Proof. induction cs as [|c cs IH]; cbn [rpath length]; [lia|]. rewrite app_length. lia. Qed.
+
+Lemma osplit_split_abs os p x : osplit os p = Some x -> split_abs os p = x.
+Proof. unfold osplit. destruct (Nat.eqb _ 0); [discriminate|]. intros [= <-]. reflexivity. Qed.
+
+Lemma o_missing_spec s : orefa_inv s -> forall cur ds fuel, gcs cur -> length cur < fuel ->
+  (exists r, o_missing fuel s (rpath cur) ds = inl r)
+  \/ (exists cur0 mid i n, cur = cur0 ++ mid
+        /\ o_missing fuel s (rpath cur) ds = inr (ds ++ rev (chain_paths cur0 mid), i)
+        /\ ofind s (rpath cur0) = Some (i, n) /\ on_dir n = true
+        /\ (forall c r, mid = c :: r -> Fi (o_index s) (cur0 ++ [c]) = None)).
+Proof.
+  intros Hinv cur. induction cur as [|c cur' IH] using rev_ind; intros ds fuel Hcur Hfuel.
+  - destruct fuel as [|f]; [lia|]. cbn [o_missing rpath].
+    destruct (ofind_root s (inv_h _ Hinv)) as (n & _ & H2 & Hd). rewrite H2, Hd.
+    right. exists [], [], 0, n. cbn [chain_paths rev app]. rewrite app_nil_r. repeat split; auto. intros c r [=].
+  - destruct fuel as [|f]; [lia|]. cbn [o_missing].
+    apply gcs_snoc_inv in Hcur. destruct Hcur as [Hcur' Hc].
+    destruct (ofind s (rpath (cur' ++ [c]))) as [[i n]|] eqn:E.
+    + destruct (on_dir n) eqn:Ed.
+      * right. exists (cur' ++ [c]), [], i, n. cbn [chain_paths rev]. rewrite !app_nil_r. repeat split; auto. intros c0 r [=].
+      * left. eauto.
+    + rewrite (inv_os _ Hinv). rewrite (split_abs_rpath cur' c) by (apply comp_ok_nosl; apply good_comp_ok'; exact Hc).
+      rewrite app_length in Hfuel. cbn [length] in Hfuel.
+      assert (Hf' : length cur' < f) by lia.
+      destruct (IH (ds ++ [rpath (cur' ++ [c])]) f Hcur' Hf') as [(r & Hr)|(cur0 & mid & i & n & Ecur & Hres & Hf & Hd & Hmiss)].
+      * left. eauto.
+      * right. exists cur0, (mid ++ [c]), i, n. split; [rewrite Ecur, app_assoc; reflexivity|].
+        split; [|split; [exact Hf|split; [exact Hd|]]].
+        -- rewrite Hres. rewrite chain_paths_snoc, rev_app_distr. cbn [rev app].
+           rewrite <- app_assoc. cbn [app]. rewrite Ecur, <- app_assoc. reflexivity.
+        -- intros c0 r Em. destruct mid as [|m0 mid'].
+           ++ rewrite app_nil_r in Ecur. cbn [app] in Em. inversion Em as [[Ec0 Er]]. rewrite <- Ecur.
+              apply (ofind_none _ _ (inv_h _ Hinv)) in E. rewrite <- Ec0. exact E.
+           ++ cbn [app] in Em. inversion Em as [[Ec0 Er]]. rewrite <- Ec0. apply (Hmiss m0 mid' eq_refl).
+Qed.
+
+Lemma dir_mode_is_dir x : has (N.lor (dir_mode Linux) x) MODE_DIR = true.
+Proof.
+  rewrite has_mode_dir_testbit, N.lor_spec. cbn [dir_mode]. change MODE_DIR with (2 ^ 31)%N.
+  rewrite N.pow2_bits_true. reflexivity.
+Qed.
+
+Lemma chain_inv perm : forall mid s cur0 i n, orefa_inv s -> gcs (cur0 ++ mid) ->
+  ofind s (rpath cur0) = Some (i, n) -> on_dir n = true ->
+  (forall c r, mid = c :: r -> Fi (o_index s) (cur0 ++ [c]) = None) ->
+  orefa_inv (o_create_chain s i (chain_paths cur0 mid) perm).
+Proof.
+  induction mid as [|c r IH]; intros s cur0 i n Hinv Hg Hf Hd Hmiss; cbn [chain_paths o_create_chain]; [exact Hinv|].
+  assert (Hg0 : gcs cur0) by (apply Forall_app in Hg; apply Hg).
+  assert (Hcr : gcs (c :: r)) by (apply Forall_app in Hg; apply Hg).
+  inversion Hcr as [|? ? Hc Hr]; subst.
+  rewrite (inv_os _ Hinv).
+  rewrite (osplit_split_abs Linux _ _ (split_abs_rpath cur0 c (comp_ok_nosl _ (good_comp_ok' _ Hc)))). cbn [snd].
+  assert (Hn : ofind s (rpath (cur0 ++ [c])) = None).
+  { unfold ofind. unfold Fi in Hmiss. rewrite (Hmiss c r eq_refl). reflexivity. }
+  unfold o_create_dir.
+  pose proof (inv_create_node s cur0 c i n (N.lor (dir_mode (o_os s)) (N.ldiff (N.land perm (511 + MODE_STICKY)) (o_umask s)))
+                Hinv Hg0 Hc Hf Hd Hn) as Hinv1.
+  destruct (o_create_node s i (rpath (cur0 ++ [c])) c _) as [s1 c1] eqn:Ecreate. cbn [fst] in Hinv1.
+  apply ofind_some in Hf. destruct Hf as [Hfi Hfn].
+  assert (Hilt : i < length (o_heap s)) by (eapply oget_some_lt; exact Hfn).
+  set (nd := {| on_ch := []; on_data := []; on_nlink := 1; on_id := (o_last_id s + 1)%N;
+                on_meta := {| m_mode := N.lor (dir_mode (o_os s)) (N.ldiff (N.land perm (511 + MODE_STICKY)) (o_umask s));
+                              m_uid := us_uid (o_user s); m_gid := us_gid (o_user s) |} |}) in *.
+  assert (Es1 : o_index s1 = aset str_eqb (rpath (cur0 ++ [c])) (length (o_heap s)) (o_index s)
+                /\ o_heap s1 = o_add_child (o_heap s ++ [nd]) i c (length (o_heap s)) /\ c1 = length (o_heap s)).
+  { unfold o_create_node in Ecreate. inversion Ecreate. cbn [o_index o_heap]. auto. }
+  destruct Es1 as (Eidx & Eheap & Ec1).
+  apply (IH s1 (cur0 ++ [c]) c1 nd Hinv1).
+  - rewrite <- app_assoc. exact Hg.
+  - apply ofind_some. rewrite Eidx, Eheap, Ec1. split.
+    + unfold ikey. apply al_aset_eq.
+    + unfold o_add_child. rewrite (oget_app_some _ nd _ _ Hfn). rewrite oget_oupd_neq by lia. apply oget_app_new.
+  - unfold nd, on_dir. cbn [on_meta m_mode]. rewrite (inv_os _ Hinv). apply dir_mode_is_dir.
+  - intros c2 r2 Er. rewrite Eidx.
+    assert (Hg2 : gcs (c2 :: r2)) by (rewrite <- Er; exact Hr). inversion Hg2 as [|? ? Hc2 _]; subst.
+    rewrite Fi_aset_neq.
+    + apply (Fi_below_none _ (o_heap s) (cur0 ++ [c]) c2 [] (inv_h _ Hinv)).
+      * apply gcs_snoc; assumption.
+      * constructor; [exact Hc2|constructor].
+      * apply (Hmiss c (c2 :: r2) eq_refl).
+    + apply gcs_snoc; [apply gcs_snoc; assumption|exact Hc2].
+    + apply gcs_snoc; assumption.
+    + intros E. apply (f_equal (@length str)) in E. rewrite !app_length in E. cbn in E. lia.
+Qed.
+
+Lemma step_mkdir_all s path perm : orefa_inv s -> orefa_inv (fst (o_mkdir_all s path perm)).
+Proof.
+  intros Hinv. unfold o_mkdir_all.
+  destruct (oabs_shape s path Hinv) as (cs & Hcs & Eabs). rewrite Eabs.
+  destruct (ofind s (abs_path cs)) as [[i n]|] eqn:E; [destruct (on_dir n); exact Hinv|].
+  destruct (abs_path_cases cs) as [[-> E1]|[Hne E1]].
+  - destruct (ofind_root s (inv_h _ Hinv)) as (n & H1 & _). rewrite E1, H1 in E. discriminate.
+  - rewrite E1 in *.
+    assert (Hfu : length cs < S (length (rpath cs))) by (pose proof (rpath_length_ge cs); lia).
+    destruct (o_missing_spec s Hinv cs [] (S (length (rpath cs))) Hcs Hfu) as [(r & Hr)|(cur0 & mid & i & n & Ecur & Hres & Hf & Hd & Hmiss)].
+    + rewrite Hr. exact Hinv.
+    + rewrite Hres. cbn [app fst]. rewrite rev_involutive.
+      apply (chain_inv perm mid s cur0 i n Hinv); try assumption. rewrite <- Ecur. exact Hcs.
+Qed.
